@@ -9,7 +9,8 @@ Init == z = [k |-> "start"]
 \* performative lengths: pW <= pF (setting more may add bytes), pL <= pC <= pF
 Params == { [max |-> m, pW |-> pw, pF |-> pf, pC |-> pc, pL |-> pl, L |-> l, om |-> om] :
               m \in MaxLo..MaxHi, pw \in 3..5, pf \in 3..6, pc \in 2..5, pl \in 2..5, l \in 0..(3 * MaxHi + 2), om \in BOOLEAN }
-Legal(q) == q.pW <= q.pF /\ q.pC <= q.pF /\ q.pL <= q.pC /\ (q.om => (q.pW = q.pF /\ q.pL = q.pC))
+\* (precondition of the rule: header + largest performative leave room for payload -- in the code max >= 512 and a transfer performative is far smaller)
+Legal(q) == q.pW <= q.pF /\ q.pC <= q.pF /\ q.pL <= q.pC /\ (q.om => (q.pW = q.pF /\ q.pL = q.pC)) /\ 8 + q.pF < q.max
 Next == z.k = "start" /\ \E q \in Params : Legal(q) /\ z' = [k |-> "case"] @@ q
 Spec == Init /\ [][Next]_z
 
